@@ -1,8 +1,15 @@
 """C19 — re-batching conserves rows, order and column alignment.
 
-Real code: ml_metrics._src.utils.iter_utils.rebatched_args  (and, in `extra`, the
-TreeFn / TreeTransform batch_size paths that call it).
-Model: lean/MlModel/Model/Rebatch.lean; theorems: lean/MlModel/Properties/C19.lean.
+Real code: ml_metrics._src.utils.iter_utils.rebatched_args (cases without `via`), and the glue that
+calls it: `TreeFn._iterate` (chainables/tree_fns.py) entered through the public pipeline API
+`ml_metrics.chainable.Pipeline` `.apply/.select/.batch/.assign(..., fn_batch_size=, batch_size=)`
+(cases with `via`).
+Model: lean/MlModel/Model/Rebatch.lean (`run`, `pulls`, `treeFn`); theorems: lean/MlModel/Properties/C19.lean.
+
+Case format (JSON):
+  direct : {target, ncols (0 = deduce), pad, batches:[[{"k":kind,"r":[ints]},..],..], malform?}
+  via    : the same plus {via: apply|select|batch|assign, fn_batch, g: row-function name, kinds_out:[kind,..],
+           bare: bool (single key / bare column instead of 1-tuples)}; `ncols` = number of input columns.
 """
 import itertools
 
@@ -12,17 +19,21 @@ from harness.core import canon, err_kind
 
 PID = 'C19'
 TITLE = 'Re-batching conserves rows, order and column alignment'
-LEAN_MODULES = ['MlModel.Properties.C19']
+LEAN_MODULES = ['MlModel.Properties.C19', 'MlModel.Witness.C19']
 TRUSTED = [
+    'TreeFn._iterate is modelled as two re-batchers around one call per batch (treeFn); tree key selection / output '
+    'assembly (_get_inputs/_get_outputs/_normalize_outputs) is exercised by the via-cases but not modelled',
     'modelled, not verified: more_itertools.sliced/flatten/padded, np.concatenate/np.pad, zip(strict=True) '
     '(their list semantics are written out in Model/Rebatch.lean)',
 ]
 ASSUMPTIONS = ['rows are opaque values (ints in the correspondence); containers are list/tuple/ndarray, '
                'plus bytes as the representative of an unsupported container kind']
-RULE = ('small-exhaustive over batch-size sequences (len<=3, sizes 0..4 quick / len<=4, sizes 0..6 thorough) x targets x '
+RULE = ('direct cases: small-exhaustive over batch-size sequences (len<=3, sizes 0..4 quick / len<=4, sizes 0..6 thorough) x targets x '
         'column counts x container kinds x pad, then random long streams and a ~10% malformed stream '
         '(ragged columns, wrong column count, unsupported container); non-trivial = at least 2 input batches '
-        'and the target size differs from some input batch size; distinct = distinct canonical case JSON')
+        'and the target size differs from some input batch size; distinct = distinct canonical case JSON. '
+        'via cases: the same size sequences pushed through Pipeline.apply/select/batch/assign with fn_batch_size x batch_size '
+        'x row functions x output container kinds (random), compared with the Lean model of TreeFn._iterate (treeFn)')
 
 KINDS = ['list', 'tuple', 'array']
 
@@ -66,8 +77,7 @@ def make_case(sizes, target, ncols, kinds, pad, explicit_cols, malform=None):
   return case
 
 
-def gen_cases(ctx):
-  yield from ctx.corpus()
+def gen_direct(ctx):
   rng = ctx.rng
   quick = ctx.quick
   maxlen, maxsize, targets = (3, 4, (1, 2, 3)) if quick else (4, 6, (1, 2, 3, 4, 5))
@@ -117,30 +127,284 @@ def gen_cases(ctx):
     yield case
 
 
-def run_impl(case):
+
+# ------------------------------------------------------------------ row functions (mirrors Driver/Rebatch.lean rowFn)
+
+ROW_FNS = {
+    'id': lambda r: list(r),
+    'sum': lambda r: [sum(r)],
+    'rev': lambda r: list(reversed(r)),
+    'dup': lambda r: list(r) + list(r),
+    'affine': lambda r: [2 * x + 1 for x in r],
+    'first': lambda r: [r[0]],
+}
+
+
+def n_out(g, nin):
+  return {'id': nin, 'sum': 1, 'rev': nin, 'dup': 2 * nin, 'affine': nin, 'first': 1}[g]
+
+
+def make_via(via, sizes, batch, fn_batch, nin, kinds, g='id', kinds_out=None, bare=False, malform=None):
+  case = make_case(sizes, batch, nin, kinds, None, True, malform)
+  if via == 'select':
+    g, fn_batch, kinds_out = 'id', 0, None
+  if via == 'batch':
+    g, fn_batch, kinds_out = 'id', 0, ['list'] * nin
+    for b in case['batches']:
+      for c in b:
+        c['k'] = 'list'
+  case.update(via=via, fn_batch=fn_batch, g=g, bare=bool(bare),
+              kinds_out=kinds_out if kinds_out is not None else None)
+  return case
+
+
+def gen_via(ctx):
+  rng, quick = ctx.rng, ctx.quick
+  # small systematic part: every via x a few size sequences x (fn_batch, batch)
+  seqs = [(), (0,), (3,), (5, 1), (2, 2, 2), (1, 0, 4), (4, 3, 0, 2), (7,), (1, 1, 1, 1, 1)]
+  for sizes in seqs:
+    for fb, b in [(0, 2), (4, 3), (2, 2), (3, 1), (0, 5), (0, 0)]:
+      nin = 1 + (len(sizes) + fb + b) % 2
+      yield make_via('apply', sizes, b, fb, nin, KINDS, g=['sum', 'rev', 'affine'][(fb + b) % 3],
+                     kinds_out=[KINDS[(b + i) % 3] for i in range(n_out(['sum', 'rev', 'affine'][(fb + b) % 3], nin))],
+                     bare=(len(sizes) + b) % 2 == 0)
+    for b in (0, 1, 2, 3):
+      yield make_via('select', sizes, b, 0, 1 + len(sizes) % 2, KINDS, bare=b % 2 == 0)
+  for n in range(0, 6):
+    for b in (1, 2, 3):
+      yield make_via('batch', [1] * n, b, 0, 1 + (n + b) % 2, ['list'], bare=True)
+  # random
+  for _ in range(250 if quick else 5000):
+    via = rng.choice(['apply', 'apply', 'apply', 'select', 'batch', 'assign'])
+    n = rng.randrange(0, 9)
+    nin = rng.randrange(1, 4)
+    kinds = [rng.choice(KINDS) for _ in range(nin)]
+    g = rng.choice(sorted(ROW_FNS))
+    kinds_out = [rng.choice(KINDS) for _ in range(n_out(g, nin))]
+    b = rng.choice([1, 2, 3, 4, 5, 7])
+    fb = rng.choice([0, 0, 1, 2, 3, 4, 6])
+    if via == 'batch':
+      yield make_via('batch', [1] * n, b, 0, nin, ['list'], bare=rng.random() < 0.5)
+    elif via == 'assign':
+      # aligned domain: every incoming batch has exactly `batch` rows, the last 1..batch
+      sizes = [b] * max(n - 1, 0) + ([rng.randrange(1, b + 1)] if n else [])
+      yield make_via('assign', sizes, b, fb, nin, kinds, g, kinds_out, bare=rng.random() < 0.5)
+    else:
+      sizes = [rng.choice([0, 1, 1, 2, 3, 5, 8]) for _ in range(n)]
+      if rng.random() < 0.15:
+        b = fb = 0
+      yield make_via(via, sizes, b, fb, nin, kinds, g, kinds_out, bare=rng.random() < 0.5)
+  # malformed: ragged columns reach the re-batcher through the pipeline
+  for _ in range(30 if quick else 500):
+    n = rng.randrange(1, 5)
+    nin = rng.randrange(2, 4)
+    sizes = [rng.randrange(1, 5) for _ in range(n)]
+    via = rng.choice(['select', 'apply'])
+    g = rng.choice(['id', 'rev', 'sum'])
+    case = make_via(via, sizes, rng.randrange(1, 4), rng.randrange(1, 4), nin, [rng.choice(KINDS) for _ in range(nin)],
+                    g, [rng.choice(KINDS) for _ in range(n_out(g, nin))], malform='ragged')
+    case['batches'][rng.randrange(n)][rng.randrange(nin)]['r'].append(99)
+    yield case
+  # Assign with batch boundaries that differ from the incoming ones: known finding F-C19-assign (documented, few cases)
+  for sizes, fb, b in [((5, 1), 0, 2), ((5, 1), 4, 3), ((5, 1), 0, 6), ((2, 2, 2), 0, 3)]:
+    yield make_via('assign', sizes, b, fb, 2, ['list', 'array'], 'sum', ['list'])
+
+
+def branches(case):
+  """Which arms of the flush/carry logic a case exercises (computed from the sizes alone)."""
+  t, out = case['target'], set()
+  if case.get('malform'):
+    return {'malformed:' + case['malform']}
+  if t == 0:
+    return {'identity'}
+  if not case['batches']:
+    return {'empty-stream'}
+  m = 0
+  for b in case['batches']:
+    m += len(b[0]['r']) if b else 0
+    if m == 0:
+      out.add('zero-rows-buffered')
+    elif m < t:
+      out.add('below-target:no-flush')
+    else:
+      out.add('flush:multi-slice' if m > t else 'flush:one-slice')
+      out.add('flush:exact-fit' if m % t == 0 else 'flush:carry-remainder')
+      m %= t
+  if m == 0:
+    out.add('exhausted:nothing-buffered')
+  else:
+    out.add('exhausted:remainder-padded' if case.get('pad') is not None else 'exhausted:remainder')
+  return out
+
+
+REQUIRED_BRANCHES = ['identity', 'empty-stream', 'zero-rows-buffered', 'below-target:no-flush', 'flush:one-slice',
+                     'flush:multi-slice', 'flush:exact-fit', 'flush:carry-remainder', 'exhausted:nothing-buffered',
+                     'exhausted:remainder', 'exhausted:remainder-padded', 'malformed:ragged', 'malformed:cols',
+                     'malformed:other', 'malformed:zerocols']
+
+
+def gen_cases(ctx):
+  def counted(it):
+    for case in it:
+      via = case.get('via', 'direct')
+      ctx.count('entry_point', via)
+      ctx.count('input_batches', min(len(case['batches']), 10))
+      for br in branches(case):
+        ctx.count('branch:' + ('direct' if via == 'direct' else 'pipeline'), br)
+      yield case
+  yield from counted(ctx.corpus())
+  yield from counted(gen_direct(ctx))
+  yield from counted(gen_via(ctx))
+
+
+def extra(ctx):
+  """Coverage promise of the generator: every arm of the re-batching logic is exercised (else: infrastructure failure)."""
+  from harness.core import InfraError
+  missing = [b for b in REQUIRED_BRANCHES if b not in ctx.hist.get('branch:direct', {})]
+  missing += ['pipeline:' + b for b in ('flush:multi-slice', 'flush:carry-remainder', 'exhausted:remainder', 'malformed:ragged')
+              if b not in ctx.hist.get('branch:pipeline', {})]
+  missing += ['entry:' + v for v in ('apply', 'select', 'batch', 'assign') if v not in ctx.hist.get('entry_point', {})]
+  if missing:
+    raise InfraError(f'generator missed promised branches: {missing}')
+
+
+class _Counted:
+  """Iterator wrapper counting `next()` calls (including the one that raises StopIteration)."""
+
+  def __init__(self, it):
+    self.it, self.n = iter(it), 0
+
+  def __iter__(self):
+    return self
+
+  def __next__(self):
+    self.n += 1
+    return next(self.it)
+
+
+def run_direct(case):
   from ml_metrics._src.utils import iter_utils
   batches = [tuple(mk_col(c['k'], c['r']) for c in b) for b in case['batches']]
   kw = {}
   if case['pad'] is not None:
     kw['pad'] = case['pad']
-  it = iter_utils.rebatched_args(iter(batches), case['target'], num_columns=case['ncols'], **kw)
-  out, err = [], None
+  src = _Counted(batches)
+  it = iter_utils.rebatched_args(src, case['target'], num_columns=case['ncols'], **kw)
+  out, pulls, err = [], [], None
   try:
     for b in it:
       out.append([col_obs(c) for c in b])
+      pulls.append(src.n)     # how many input batches had been requested when this batch came out
   except Exception as e:  # pylint: disable=broad-except
     err = err_kind(e)
-  return dict(out=out, err=err)
+  return dict(out=out, err=err, pulls=pulls)
+
+
+def _batch_fn(case):
+  g, kinds_out, bare = ROW_FNS[case['g']], case['kinds_out'], case['bare']
+
+  def fn(*cols):
+    rows = list(zip(*[(c.tolist() if isinstance(c, np.ndarray) else list(c)) for c in cols]))
+    outs = [g(list(r)) for r in rows]
+    res = tuple(mk_col(k, [o[c] for o in outs]) for c, k in enumerate(kinds_out))
+    if len(res) == 1 and bare and kinds_out[0] != 'tuple':
+      return res[0]          # a bare column: `_normalize_outputs` has to wrap it
+    return res
+  return fn
+
+
+def run_via(case):
+  """Drives the re-batching through the public pipeline API."""
+  from absl import logging as alog
+  alog.set_verbosity(alog.FATAL)      # the runner logs every exception it re-raises
+  from ml_metrics import chainable
+  via, nin, b, fb, bare = case['via'], case['ncols'], case['target'], case['fn_batch'], case['bare']
+  in_keys = tuple(f'c{i}' for i in range(nin))
+  nout = n_out(case['g'], nin)
+  out_keys = tuple(f'o{i}' for i in range(nout))
+  ik = in_keys[0] if (nin == 1 and bare) else in_keys
+  ok = out_keys[0] if (nout == 1 and bare) else out_keys
+  P = chainable.Pipeline.new()
+  inputs = [{k: mk_col(c['k'], c['r']) for k, c in zip(in_keys, bt)} for bt in case['batches']]
+  read = out_keys
+  if via == 'apply':
+    p = P.apply(fn=_batch_fn(case), input_keys=ik, output_keys=ok, fn_batch_size=fb, batch_size=b)
+  elif via == 'assign':
+    p = P.assign(ok, fn=_batch_fn(case), input_keys=ik, fn_batch_size=fb, batch_size=b)
+  elif via == 'select':
+    p, read = P.select(ik, batch_size=b), in_keys
+  elif via == 'batch':
+    read = in_keys
+    if nin == 1 and bare:     # a stream of bare rows
+      inputs = [bt[0]['r'][0] for bt in case['batches']]
+      p, read = P.batch(b), None
+    else:
+      inputs = [{k: c['r'][0] for k, c in zip(in_keys, bt)} for bt in case['batches']]
+      p = P.select(ik).batch(b)
+  else:
+    raise ValueError(via)
+  out, ins, err = [], [], None
+  try:
+    for tree in p.make().iterate(iter(inputs)):
+      out.append([col_obs(tree)] if read is None else [col_obs(tree[k]) for k in read])
+      if via == 'assign':
+        ins.append([col_obs(tree[k]) for k in in_keys])
+  except Exception as e:  # pylint: disable=broad-except
+    err = err_kind(e)
+  obs = dict(out=out, err=err)
+  if via == 'assign':
+    obs['ins'] = ins
+  return obs
+
+
+def run_impl(case):
+  return run_via(case) if case.get('via') else run_direct(case)
+
+
+def kinds_out_of(case):
+  if case['kinds_out'] is not None:
+    return case['kinds_out']
+  if case['batches']:
+    return [c['k'] for c in case['batches'][0]]
+  return ['list'] * case['ncols']
+
+
+def assign_aligned(case):
+  """Assign pairs the j-th re-batched output with the j-th *incoming* tree: only meaningful when
+  re-batching reproduces the incoming batch boundaries."""
+  b = case['target']
+  sizes = [len(bt[0]['r']) for bt in case['batches']]
+  if b == 0:
+    return True
+  return all(s == b for s in sizes[:-1]) and (not sizes or 1 <= sizes[-1] <= b)
 
 
 def model_requests(case):
+  if case.get('via'):
+    return [dict(model='rebatch', op='treefn', target=case['target'], fn_batch=case['fn_batch'],
+                 ncols=case['ncols'], nout_kinds=kinds_out_of(case), g=case['g'], ident=case['via'] == 'select',
+                 batches=case['batches'])]
   return [dict(model='rebatch', target=case['target'], ncols=case['ncols'], pad=case['pad'],
                batches=case['batches'])]
 
 
 def model_obs(case, resps):
   r = resps[0]
-  return dict(out=r['out'], err=r['err'])
+  if not case.get('via'):
+    return dict(out=r['out'], err=r['err'], pulls=r['pulls'])
+  obs = dict(out=r['out'], err=r['err'])
+  if case['via'] == 'assign':
+    if not assign_aligned(case):
+      return dict(skip='Assign outside the aligned domain (finding F-C19-assign): the model of TreeFn._iterate does not say '
+                       'how Assign pairs outputs with inputs')
+    obs['ins'] = case['batches'][:len(r['out'])]
+  return obs
+
+
+def compare(impl_obs, mobs):
+  if 'skip' in mobs:
+    return None
+  return None if impl_obs == mobs else 'observations differ'
 
 
 def well_formed(case):
@@ -160,18 +424,8 @@ def well_formed(case):
   return n > 0
 
 
-def oracle(case, obs):
-  """The property itself on the real output (independent of the model)."""
-  if not well_formed(case):
-    return None
-  t, bs, pad = case['target'], case['batches'], case['pad']
-  if obs['err'] is not None:
-    return f"well-formed stream raised {obs['err']}"
-  out = obs['out']
-  if t == 0:
-    return None if out == bs else 'target 0 is not the identity'
-  ncols = len(bs[0]) if bs else (case['ncols'] or 0)
-  total = sum(len(b[0]['r']) for b in bs) if bs else 0
+def check_shapes(out, ncols, t, pad):
+  """Sizes and rectangularity of the emitted batches (target t > 0)."""
   for j, b in enumerate(out):
     if len(b) != ncols:
       return f'batch {j} has {len(b)} columns, expected {ncols}'
@@ -185,13 +439,83 @@ def oracle(case, obs):
       return f'final batch has {L} rows, target {t}'
     if j == len(out) - 1 and pad is not None and L != t:
       return f'final batch not padded: {L} rows'
+  return None
+
+
+def oracle_direct(case, obs):
+  t, bs, pad = case['target'], case['batches'], case['pad']
+  if obs['err'] is not None:
+    return f"well-formed stream raised {obs['err']}"
+  out = obs['out']
+  if t == 0:
+    return None if out == bs else 'target 0 is not the identity'
+  ncols = len(bs[0]) if bs else (case['ncols'] or 0)
+  total = sum(len(b[0]['r']) for b in bs) if bs else 0
+  bad = check_shapes(out, ncols, t, pad)
+  if bad:
+    return bad
   npad = 0 if pad is None else (t - total % t) % t
   for c in range(ncols):
     want = [x for b in bs for x in b[c]['r']] + [pad] * npad
     got = [x for b in out for x in b[c]['r']]
     if got != want:
       return f'column {c}: emitted rows {got} != input rows (+padding) {want}'
+  # online: a batch must come out as soon as its rows have been received, never earlier
+  seen = [0]
+  for b in bs:
+    seen.append(seen[-1] + len(b[0]['r']))
+  done = 0
+  for j, (b, k) in enumerate(zip(out, obs['pulls'])):
+    done += len(b[0]['r'])
+    need = min(done, total)     # padding rows are not received
+    first = next(i for i, s in enumerate(seen) if s >= need)     # batches needed to have `need` rows
+    full = len(b[0]['r']) == t and done <= total
+    want_k = first if full else len(bs) + 1                      # the remainder only at exhaustion
+    if k != want_k:
+      return f'batch {j} was emitted after {k} source requests, expected {want_k}'
   return None
+
+
+def oracle_via(case, obs):
+  bs, b, nin, g = case['batches'], case['target'], case['ncols'], ROW_FNS[case['g']]
+  if obs['err'] is not None:
+    return f"well-formed stream raised {obs['err']} through Pipeline.{case['via']}"
+  out = obs['out']
+  nout = n_out(case['g'], nin)
+  rows = [[c['r'][i] for c in bt] for bt in bs for i in range(len(bt[0]['r']))]
+  want_rows = [g(r) for r in rows]
+  if b > 0:
+    bad = check_shapes(out, nout, b, None)
+    if bad:
+      return bad
+  else:       # no re-batching at all: one output batch per input batch
+    if [len(o[0]['r']) for o in out] != [len(bt[0]['r']) for bt in bs]:
+      return 'batch_size=0 changed the batch boundaries'
+  for c in range(nout):
+    got = [x for o in out for x in o[c]['r']]
+    want = [r[c] for r in want_rows]
+    if got != want:
+      return f'output column {c}: {got} != row-wise function of the input rows {want}'
+  if case['via'] == 'assign':
+    # every emitted tree: the assigned columns and the original columns describe the same rows
+    ins = obs['ins']
+    for j, (o, i) in enumerate(zip(out, ins)):
+      lens = {len(c['r']) for c in o + i}
+      if len(lens) != 1:
+        return f'tree {j}: assigned and original columns have different lengths {sorted(lens)}'
+      for r in range(lens.pop()):
+        if [c['r'][r] for c in o] != g([c['r'][r] for c in i]):
+          return f'tree {j} row {r}: assigned values do not belong to the original row'
+    if [x for i in ins for x in i[0]['r']] != [r[0] for r in rows]:
+      return 'original rows were lost or duplicated by Assign with batch_size'
+  return None
+
+
+def oracle(case, obs):
+  """The property itself on the real output (independent of the model)."""
+  if not well_formed(case):
+    return None
+  return oracle_via(case, obs) if case.get('via') else oracle_direct(case, obs)
 
 
 def nontrivial(case, obs):
@@ -200,7 +524,9 @@ def nontrivial(case, obs):
 
 
 def finding(case, what):
-  if not case['batches'] and case['ncols'] == 0 and case['target'] > 0:
+  if case.get('via') == 'assign' and not assign_aligned(case):
+    return 'F-C19-assign'
+  if not case.get('via') and not case['batches'] and case['ncols'] == 0 and case['target'] > 0:
     return 'F11'
   return None
 
@@ -209,9 +535,16 @@ def neighbours(case, rng):
   """Cases near `case`: same shape with other targets/pads, sub-streams, resized batches."""
   import copy
   for t in range(0, 8):
-    c = copy.deepcopy(case); c['target'] = t; yield c
-  for p in (None, 0, 5):
-    c = copy.deepcopy(case); c['pad'] = p; yield c
+    c = copy.deepcopy(case); c['target'] = t
+    if c.get('via') and t == 0:
+      c['fn_batch'] = 0
+    yield c
+  if case.get('via'):
+    for fb in range(0, 5):
+      c = copy.deepcopy(case); c['fn_batch'] = fb if c['target'] else 0; yield c
+  else:
+    for p in (None, 0, 5):
+      c = copy.deepcopy(case); c['pad'] = p; yield c
   for i in range(len(case['batches'])):
     c = copy.deepcopy(case); del c['batches'][i]; yield c
   for _ in range(200):
@@ -220,8 +553,10 @@ def neighbours(case, rng):
                     [rng.choice(KINDS) for _ in range(3)], rng.choice([None, 0]), rng.random() < 0.5)
 
 
-def shrink(case, fails):
+def shrink(case, fails0):
   import copy
+  cls = finding(case, '')
+  fails = lambda c: finding(c, '') == cls and fails0(c)   # stay inside the same finding class
   cur = case
   changed = True
   while changed:
